@@ -284,19 +284,44 @@ def relocate(ctx, violations, known_keys, hit_keys):
     for k in stale_rev:
         rev_by_sig.setdefault(_sig(k), []).append(k)
     out, relocated = [], []
+    pending = []
     for o in violations:
         sg = _sig(o.key)
         if by_sig.get(sg):
             k = by_sig[sg].pop(0)
             o.verdict = "known-finding"
             relocated.append((o, k))
-        elif (rev_by_sig.get(sg) or rev_by_sig.get((alias.get(sg[0], sg[0]), sg[1]))) and _premise_ok(ctx, (rev_by_sig.get(sg) or rev_by_sig.get((alias.get(sg[0], sg[0]), sg[1])))[0], o):
-            k = (rev_by_sig.get(sg) or rev_by_sig.get((alias.get(sg[0], sg[0]), sg[1]))).pop(0)
-            o.verdict = "reviewed-safe"
-            o.detail += " [reviewed-safe entry " + k + " (site moved): " + ctx.reviewed[k]["reason"] + "]"
         else:
-            out.append(o)
+            pending.append(o)
+    # reviewed-safe entries: first give every site the entry whose mechanical premise it satisfies, then hand out the entries that have
+    # no premise (so that an entry without a premise is not used up by a site that had a better match)
+    for want_premise in (True, False):
+        rest = []
+        for o in pending:
+            sg = _sig(o.key)
+            k = _pick_reviewed(ctx, rev_by_sig, sg, alias, o, take=True, want_premise=want_premise)
+            if k is not None:
+                o.verdict = "reviewed-safe"
+                o.detail += " [reviewed-safe entry " + k + " (site moved): " + ctx.reviewed[k]["reason"] + "]"
+            else:
+                rest.append(o)
+        pending = rest
+    out = pending
     return out, relocated
+
+
+def _pick_reviewed(ctx, rev_by_sig, sg, alias, o, take=False, want_premise=None):
+    """first unused reviewed-safe entry of that signature whose premise (if it has one) holds for the code at the violation's site"""
+    for key in dict.fromkeys((sg, (alias.get(sg[0], sg[0]), sg[1]))):
+        lst = rev_by_sig.get(key) or []
+        for i, k in enumerate(lst):
+            if want_premise is not None and bool(ctx.reviewed[k].get("premise")) != want_premise:
+                continue
+            if _premise_ok(ctx, k, o):
+                if take:
+                    lst.pop(i)
+                return k
+    return None
 
 
 def _premise_ok(ctx, rkey, o):
